@@ -528,6 +528,30 @@ fn fold_scenario(out: &mut Shards, rng: &mut Rng, k: u16, shape: u8, parts: usiz
     }
 }
 
+/// digests of different k: a small-k accumulator (empty at first) takes over donors of larger k that
+/// have been queried (compressed) since their last update; the accumulator's own bound must hold at once
+fn fold_mixed(out: &mut Shards, rng: &mut Rng, k: u16, donor_ks: &[u16], shape: u8) {
+    out.next_run("td-fold-mixed");
+    let mut ds: Vec<Td> = vec![];
+    let mk = |out: &mut Shards, ds: &mut Vec<Td>, k: u16| {
+        let id = ds.len();
+        ds.push(Td { d: TDigestMut::new(k), smin: f64::INFINITY, smax: f64::NEG_INFINITY, cmin: 0, cmax: 0 });
+        out.ev(json!({"op":"DNew","id":id,"k":k}));
+        id
+    };
+    let a = mk(out, &mut ds, k);
+    for &dk in donor_ks {
+        let o = mk(out, &mut ds, dk);
+        let cnt = 6 * dk as usize + 100 + rng.below(500) as usize;
+        if !feed(out, o, &mut ds[o], rng, shape, cnt) || !chk(out, o, &mut ds[o], rng) {
+            return;
+        }
+        if !merge_into(out, &mut ds, a, o) || !chk(out, a, &mut ds[a], rng) {
+            return;
+        }
+    }
+}
+
 fn scenario(out: &mut Shards, rng: &mut Rng, k: u16, shape: u8, n: usize, merges: usize) {
     // shape 7 (finite values of opposite sign above f64::MAX / 2) is its own scenario class
     out.next_run(if shape == 7 { "td-stream-maxmag" } else { "td-stream" });
@@ -658,6 +682,9 @@ pub fn record(args: &Args) {
             let shape = *rng.pick(&[0u8, 2, 3, 5]);
             fold_scenario(&mut out, &mut rng, k, shape, if k > 100 { 3 } else { 16 }, single);
         }
+        fold_mixed(&mut out, &mut rng, 20, &[400, 100], 2);
+        fold_mixed(&mut out, &mut rng, 10, &[500], 0);
+        fold_mixed(&mut out, &mut rng, 30, &[200, 500, 64], 5);
         // merge tree of 16 digests
         scenario(&mut out, &mut rng, 100, 2, 2000, 15);
         if thorough {
